@@ -102,6 +102,9 @@ class Model:
                 try:
                     src = open(path, encoding='utf-8').read()
                     tree = ast.parse(src, filename=path)
+                    if os.environ.get('SA_NO_NORMALIZE') != '1':
+                        from .normalize import normalize_module
+                        tree = normalize_module(tree, modname)
                 except (SyntaxError, UnicodeDecodeError, OSError) as e:
                     self.parse_errors.append((rel, str(e)))
                     continue
@@ -371,3 +374,55 @@ def is_const(n, value=...):
     if not isinstance(n, ast.Constant):
         return False
     return value is ... or (n.value == value and type(n.value) is type(value))
+
+
+# -------------------------------------------------------------------- temporaries
+def single_bindings(fnode):
+    """locals of fnode bound by exactly one plain assignment `name = expr` (never augmented, never a loop / with / comprehension target,
+    not a parameter): name -> value expression.  These are temporaries: a use of the name means its value expression."""
+    a = fnode.args
+    params = {x.arg for x in a.posonlyargs + a.args + a.kwonlyargs} | ({a.vararg.arg} if a.vararg else set()) | ({a.kwarg.arg} if a.kwarg else set())
+    count, value = {}, {}
+    for n in body_walk(fnode):
+        if isinstance(n, ast.Assign):
+            for t in n.targets:
+                if isinstance(t, ast.Name):
+                    count[t.id] = count.get(t.id, 0) + 1
+                    value[t.id] = n.value
+                else:
+                    for x in ast.walk(t):
+                        if isinstance(x, ast.Name) and isinstance(x.ctx, ast.Store):
+                            count[x.id] = count.get(x.id, 0) + 2
+        elif isinstance(n, (ast.AugAssign, ast.AnnAssign)):
+            for x in ast.walk(n.target):
+                if isinstance(x, ast.Name):
+                    count[x.id] = count.get(x.id, 0) + 2
+        elif isinstance(n, (ast.For, ast.AsyncFor)):
+            for x in ast.walk(n.target):
+                if isinstance(x, ast.Name):
+                    count[x.id] = count.get(x.id, 0) + 2
+        elif isinstance(n, (ast.With, ast.AsyncWith)):
+            for it in n.items:
+                if it.optional_vars is not None:
+                    for x in ast.walk(it.optional_vars):
+                        if isinstance(x, ast.Name):
+                            count[x.id] = count.get(x.id, 0) + 2
+        elif isinstance(n, ast.NamedExpr):
+            count[n.target.id] = count.get(n.target.id, 0) + 2
+    return {k: v for k, v in value.items() if count.get(k) == 1 and k not in params}
+
+
+def inline_expr(fnode, expr, depth=6, bindings=None):
+    """copy of expr with temporaries (single_bindings) replaced by their value expressions, recursively"""
+    import copy
+    b = bindings if bindings is not None else single_bindings(fnode)
+
+    class T(ast.NodeTransformer):
+        def __init__(self, d):
+            self.d = d
+
+        def visit_Name(self, n):
+            if isinstance(n.ctx, ast.Load) and n.id in b and self.d > 0:
+                return T(self.d - 1).visit(copy.deepcopy(b[n.id]))
+            return n
+    return T(depth).visit(copy.deepcopy(expr))
